@@ -117,16 +117,18 @@ UNKNOWN_BOOL = V(Sc())
 
 
 class CollCell:
-    def __init__(self, site: str = "") -> None:
+    def __init__(self, site: str = "", born: frozenset = E) -> None:
         self.elem: set = set()
         self.part: set = set()
         self.site = site
+        self.born = born  # iterations that were running when the collection was created (it is a per-element temporary of those)
 
 
 class DictCell:
-    def __init__(self, site: str = "") -> None:
+    def __init__(self, site: str = "", born: frozenset = E) -> None:
         self.entries: set = set()  # (key value, value value)
         self.site = site
+        self.born = born
 
 
 class ObjCell:
@@ -177,6 +179,8 @@ class Interp:
         self.writes: set = set()  # (object cell key, field) written so far
         self.stale: set = set()  # fields holding a value of an earlier call (see rules R6)
         self.stale_reads: list = []
+        self.in_cond = 0
+        self.pseudo: set = set()  # identities of elements selected by index / pop (always current)
         self.collectors: list = []  # (uncertainty level, fields definitely written) per open branch of an undecided `if`
         self.scalar_calls: list = []  # (method name, provenance tags of the scalar receiver)
 
@@ -187,7 +191,7 @@ class Interp:
     def coll(self, key, site: str = "", elems: frozenset = E) -> Ref:
         c = self.cells.get(key)
         if c is None:
-            c = self.cells[key] = CollCell(site)
+            c = self.cells[key] = CollCell(site, frozenset(self.active))
             self.version += 1
         if elems:
             self.add(Ref("coll", key), elems)
@@ -195,7 +199,7 @@ class Interp:
 
     def dict_(self, key, site: str = "") -> Ref:
         if key not in self.cells:
-            self.cells[key] = DictCell(site)
+            self.cells[key] = DictCell(site, frozenset(self.active))
             self.version += 1
         return Ref("dict", key)
 
@@ -205,10 +209,19 @@ class Interp:
             self.version += 1
         return Ref("obj", key)
 
+    def adopt(self, container, v: frozenset) -> None:
+        """Collections stored inside a container live as long as the container does."""
+        for sh in v:
+            if isinstance(sh, Ref) and sh.kind in ("coll", "dict"):
+                inner = self.cells[sh.key]
+                if not inner.born <= container.born:
+                    inner.born = inner.born & container.born
+
     def add(self, ref: Ref, elems: frozenset) -> None:
         c = self.cells[ref.key]
         new = elems - c.elem
         if new:
+            self.adopt(c, new)
             c.elem |= new
             self.version += 1
 
@@ -242,6 +255,7 @@ class Interp:
     def store_entry(self, ref: Ref, k: frozenset, v: frozenset) -> None:
         c = self.cells[ref.key]
         if (k, v) not in c.entries:
+            self.adopt(c, v)
             c.entries.add((k, v))
             self.version += 1
 
@@ -260,8 +274,14 @@ class Interp:
         return f"{fr.fi.relpath}::{getattr(fr.fi, 'shown', fr.fi.qualname)}::{norm(node, 90)}"
 
     def live(self, eids) -> frozenset:
-        act = set(self.active)
+        act = set(self.active) | self.pseudo
         return frozenset(e for e in eids if e in act)
+
+    def pick(self, v: frozenset, key, label: str) -> frozenset:
+        """One element selected from a collection by index / pop / next: its parts stem from the same element."""
+        e = self.eid(("pick", key), label)
+        self.pseudo.add(e)
+        return self.retag(v, e, ("pick", key))
 
     def scalars(self, v: frozenset, depth: int = 0, into_colls: bool = True) -> list[Sc]:
         """All scalar shapes inside a value (tuple items, object fields, elements of collections)."""
@@ -406,7 +426,7 @@ class Interp:
                         if b.roles != {"O"} or not b.srcs:
                             continue
                         la, lb = self.live(a.eids), self.live(b.eids)
-                        if la & lb or self.live(b.assoc) & la or self.live(a.assoc) & lb:
+                        if la & lb or self.live(b.assoc) & la or self.live(a.assoc) & lb or self.live(a.assoc) & self.live(b.assoc):
                             continue
                         return ("mix", self.site(fr, node), self.where(fr, node) if fr is not None and node is not None else "")
         return None
@@ -615,15 +635,16 @@ class Interp:
             wc: set = set()
             try:
                 kind = self.cond_kind.get((id(s.test), fr.inv), "neutral")
+                ce = frozenset(x for sc in self.scalars(tv) for x in self.live(sc.eids) if x not in self.pseudo)
                 self.collectors.append((self.uncertain, wa))
-                fr.ctrl.append((s.test, True, kind))
+                fr.ctrl.append((s.test, True, kind, ce))
                 try:
                     a = self.exec_block(s.body, dict(env), fr)
                 finally:
                     fr.ctrl.pop()
                     self.collectors.pop()
                 self.collectors.append((self.uncertain, wc))
-                fr.ctrl.append((s.test, False, kind))
+                fr.ctrl.append((s.test, False, kind, ce))
                 try:
                     c = self.exec_block(s.orelse, dict(env), fr)
                 finally:
@@ -634,7 +655,7 @@ class Interp:
             if (a is None) != (c is None) and fr.exits != exits:
                 fr.partial_exit += 1
                 # what follows in this block runs only when the branch that left was not taken
-                fr.pending_ctrl = (s.test, c is None, kind)
+                fr.pending_ctrl = (s.test, c is None, kind, ce)
             elif fr.exits == exits:
                 # no return / break / continue inside: a branch that ended did so by raising
                 both = (wa & wc) if (a is not None and c is not None) else (wc if a is None else wa)
@@ -898,6 +919,8 @@ class Interp:
                     if not inner:
                         k = (id(e), fr.inv, "auto", sh.key)
                         inner = {self.coll(k, self.site(fr, e)) if kind == "coll" else self.dict_(k, self.site(fr, e))}
+                        for r in inner:
+                            self.cells[r.key].born = self.cells[r.key].born & self.cell(sh).born
                     for r in inner:
                         self.store_entry(sh, key, V(r))
                     out |= inner
@@ -959,7 +982,9 @@ class Interp:
 
     def data_conds(self, node: ast.AST, env: dict, fr: Frame) -> list:
         """The data-dependent conditions the statement being interpreted is control dependent on (within its function)."""
-        return [(self.site(fr, e), f"only if `{'' if pol else 'not '}{norm(e, 70)}`", e) for e, pol, k in fr.ctrl if k == "data"]
+        if self.in_cond:
+            return []  # while a condition itself is being (re-)examined
+        return [(self.site(fr, e), f"only if `{'' if pol else 'not '}{norm(e, 70)}`", e, ce) for e, pol, k, ce in fr.ctrl if k == "data"]
 
     def is_dedupe_test(self, e: ast.expr, refs, added: frozenset, env: dict, fr: Frame) -> bool:
         """`x in C` / `x not in C` where C is the collection being filled or holds values of the same provenance as x:
@@ -968,11 +993,14 @@ class Interp:
             e = e.operand
         if not (isinstance(e, ast.Compare) and len(e.ops) == 1 and isinstance(e.ops[0], (ast.In, ast.NotIn))):
             return False
+        self.in_cond += 1
         try:
             cv = self.ev(e.comparators[0], env, fr)
             lv = self.ev(e.left, env, fr)
         except KeyError:
             return False
+        finally:
+            self.in_cond -= 1
         if any(isinstance(sh, Ref) and sh in set(refs) for sh in cv):
             return True
         prov = lambda scs: {(sc.roles, frozenset(x for x in sc.srcs if not str(x).startswith("fld:"))) for sc in scs}  # noqa: E731
@@ -986,10 +1014,13 @@ class Interp:
         """`if key_of(x) == current_key:` - identities of the enclosing iterations the equality test compares the added element with."""
         if not (isinstance(e, ast.Compare) and len(e.ops) == 1 and isinstance(e.ops[0], (ast.Eq, ast.Is))):
             return E
+        self.in_cond += 1
         try:
             tv = self.ev(e, env, fr)
         except KeyError:
             return E
+        finally:
+            self.in_cond -= 1
         own = frozenset(x for sc in self.scalars(added) for x in self.live(sc.eids))
         both = frozenset(x for sc in self.scalars(tv) for x in self.live(sc.eids))
         return both - own if (both & own) else E
@@ -1007,16 +1038,19 @@ class Interp:
         return self.map_scalars(v, lambda sc: replace(sc, assoc=sc.assoc | fo), (id(node), fr.inv, "sel"))
 
     def note_mutation(self, refs, added: frozenset, node: ast.AST, env: dict, fr: Frame) -> None:
-        reasons = [r for r in self.data_conds(node, env, fr) if not self.is_dedupe_test(r[2], refs, added, env, fr) and not (not r[1].startswith("only if `not ") and self.selection_eids(r[2], added, env, fr))]
+        reasons = [(r[0], r[1], r[3]) for r in self.data_conds(node, env, fr) if not self.is_dedupe_test(r[2], refs, added, env, fr) and not (not r[1].startswith("only if `not ") and self.selection_eids(r[2], added, env, fr))]
         for g in self.guards:
             reasons = reasons + g
         if not reasons:
             return
         grouped = any(self.live(sc.assoc) for sc in self.scalars(added))
-        marks = [("part", r[0], r[1], grouped) for r in reasons]
         for r in refs:
             if isinstance(r, Ref) and r.kind == "coll":
-                self.add_part(r, marks)
+                born = self.cells[r.key].born
+                # a condition on the element of an iteration only drops something from collections that outlive that element
+                marks = [("part", w, why, grouped) for w, why, ce in reasons if not (ce and ce <= born)]
+                if marks:
+                    self.add_part(r, marks)
 
     # ------------------------------------------------------------------ expressions
     def ev(self, e: ast.expr, env: dict, fr: Frame) -> frozenset:
@@ -1204,9 +1238,10 @@ class Interp:
         else:
             res = self.coll((id(e), fr.inv, "comp"), self.site(fr, e))
         outer_marks: list = []
+        born = frozenset(self.active)
         for gd in self.guards:
-            outer_marks += [("part", r[0], r[1], False) for r in gd]
-        outer_marks += [("part", r[0], r[1], False) for r in self.data_conds(e, env, fr)]
+            outer_marks += [("part", r[0], r[1], False) for r in gd if not (r[2] and r[2] <= born)]
+        outer_marks += [("part", r[0], r[1], False) for r in self.data_conds(e, env, fr) if not (r[3] and r[3] <= born)]
 
         def gen(gi: int, inner: dict, marks: list) -> None:
             if gi == len(e.generators):
@@ -1293,7 +1328,7 @@ class Interp:
             if isinstance(sh, Ref) and sh.kind == "dict":
                 out |= self.dict_lookup(sh, key, e, fr)
             elif isinstance(sh, Ref) and sh.kind == "coll":
-                out |= self.elems(V(sh))
+                out |= self.pick(self.elems(V(sh)), (sh.key, norm(e.slice, 40), fr.inv), self.site(fr, e))
             elif isinstance(sh, Tup):
                 idx = next(iter(key)).value if len(key) == 1 and isinstance(next(iter(key)), Const) else None
                 if isinstance(idx, int) and -len(sh.items) <= idx < len(sh.items):
@@ -1549,7 +1584,7 @@ class Interp:
             env[a.vararg.arg] = V(self.coll((id(fi.node), inv, "varargs"), ""))
         if a.kwarg is not None:
             env[a.kwarg.arg] = V(Opaque("kwargs"))
-        guards = self.data_conds(node, caller_env, fr) if (fr is not None and caller_env is not None) else []
+        guards = [(r[0], r[1], r[3]) for r in self.data_conds(node, caller_env, fr)] if (fr is not None and caller_env is not None) else []
         self.stack.append(fi.fq)
         self.guards.append(guards)
         try:
@@ -1674,7 +1709,7 @@ class Interp:
         if name in ("sort", "reverse", "remove", "discard", "clear"):
             return NONE_V
         if name in ("pop", "popleft", "__next__"):
-            return self.elems(V(sh))
+            return self.pick(self.elems(V(sh)), (id(call), fr.inv), self.site(fr, call))
         if name in ("copy", "union", "__or__", "__add__"):
             r = self.coll((id(call), fr.inv, "copy"), self.site(fr, call), self.elems(V(sh)))
             for a in args:
@@ -1798,7 +1833,7 @@ class Interp:
             return V(r)
         if name in ("len", "sum", "any", "all", "min", "max", "next") or name in SCALAR_FUNCS:
             if name in ("min", "max", "next"):
-                return self.elems(args[0]) if args else E
+                return self.pick(self.elems(args[0]), (id(call), fr.inv), site) if args else E
             if name in ("len", "sum", "any", "all"):
                 return self.derive([self.elems(a) for a in args], fr, call, check=False, agg=name == "len")
             if name in ("str", "repr", "format"):
